@@ -138,7 +138,7 @@ CONSTANTS = {
          r".{0,900}?pub fn finish\(&mut self\) -> Result<\(\), ArrowError> \{\s*if self\.failed \{\s*return Err\(ArrowError::JsonError\(.*?(\d+)", "int"),
         ("SHAPE_AVRO_FAILED_GUARDS", "arrow-avro/src/writer/mod.rs",
          r"pub fn write\(&mut self, batch: &RecordBatch\) -> Result<\(\), AvroError> \{.{0,400}?self\.check_not_failed\(\)\?;\s*let res = match self\.format\.sync_marker\(\) \{.{0,200}?\};"
-         r"\s*res\.inspect_err\(\|e\| self\.failed = matches!\(e, AvroError::IoError\(_, _\)\)\).{0,900}?pub fn finish\(&mut self\) -> Result<\(\), AvroError> \{\s*self\.check_not_failed\(\)\?;"
+         r"\s*res\.inspect_err\(\|e\| \{(?:\s*//[^\n]*)*\s*self\.failed = match e \{\s*AvroError::IoError\(_, _\) => true,\s*AvroError::External\(inner\) => inner\.is::<std::io::Error>\(\),\s*_ => false,\s*\}\s*\}\).{0,900}?pub fn finish\(&mut self\) -> Result<\(\), AvroError> \{\s*self\.check_not_failed\(\)\?;"
          r".{0,900}?fn check_not_failed\(&self\) -> Result<\(\), AvroError> \{\s*if self\.failed \{\s*return Err\(.*?(\d+)", "int"),
         ("SHAPE_ASYNC_FAILED_GUARDS", "parquet/src/arrow/async_writer/mod.rs",
          r"pub async fn finish\(&mut self\) -> Result<ParquetMetaData> \{\s*let metadata = self\.sync_writer\.finish\(\)\?;(?:\s*//[^\n]*)*\s*self\.do_write\(\)\.await\?;\s*self\.async_writer\.complete\(\)\.await\?;"
